@@ -5,9 +5,9 @@
  "properties": {"C13": "contract", "C14": "contract", "C11": "contract", "C19": "safety"},
  "mode": "harness", "noreturn_macros": false,
  "replace_calls": {"nextchar": "nextchar_abs"},
- "kind": "bounded", "unwind": 14, "unwind_failure": "violation",
- "bound": "files of at most 10 logical characters (all byte values) from the opening quote on, each preceded by 0 or 1 backslash-newline pair; encoding prefix of 0, 1 or 2 characters already collected; literal loop unwound 12 times, hexadecimal-digit loop of escape() 10 times",
- "unwindset": ["stringlit.0:12", "escape.0:10", "lit_setup.0:12", "gs_build.0:50", "gs_build.1:50", "gs_build.2:50", "gs_abs_tables.0:14"],
+ "kind": "bounded", "unwind": 9, "unwind_failure": "violation",
+ "bound": "files of at most 6 logical characters (all byte values) from the opening quote on, each preceded by 0 or 1 backslash-newline pair; encoding prefix of 0, 1 or 2 characters already collected; literal loop unwound 7 times, hexadecimal-digit loop of escape() 4 times (more cannot happen inside the window: unwinding assertions); line and column of the opening quote < 65536",
+ "unwindset": ["stringlit.0:7", "escape.0:4", "lit_setup.0:12", "strchr.0:14", "gs_build.0:50", "gs_build.1:50", "gs_build.2:50", "gs_abs_tables.0:14"],
  "cflags": ["-DG_IN_MAX=40", "-DVERIF_OWN_XMALLOC"],
  "stubs": ["base.c", "ghost_stdio.c"],
  "cbmc_flags": ["--drop-unused-functions"],
@@ -16,7 +16,7 @@
  "assumes": ["nextchar is taken by its logical stand-in nextchar_abs (SCAN.nextchar + SCAN.nextchar.abs prove the real one refines it)",
              "error() does not return; its call is routed to rec_error(), which checks the location argument (C11) first",
              "entry state as scankind() hands over (SCAN.ident): scanner on the opening quote, prefix collected",
-             "the spelling buffer already has its initial capacity 256; growth is asserted unreachable for tokens inside the window (growth itself: SCAN.bufadd)",
+             "the spelling buffer is an allocated buffer of 16 bytes > prefix + window (real initial capacity: 256; bufadd depends only on len < cap); growth is asserted unreachable (growth itself: SCAN.bufadd)",
              "inputs with a backslash followed by a NUL byte (SCAN.escape.nul) or containing a universal character name (SCAN.escape.ucn) are excluded here: findings stated in those units",
              "the LOCATION of the diagnostic for a new-line inside the literal is SCAN.stringlit.nlloc's (finding); that it is diagnosed is stated here",
              "harness mode; frame stated by POST clauses"]
@@ -45,10 +45,7 @@ harness(void)
 	ING(size_t, g_j);
 
 	__CPROVER_assume(in_m <= GS_LMAX && g_j < GS_LMAX && in_pfx <= 2);
-#ifdef V_P
-	__CPROVER_assume(in_pfx == V_P);
-#endif
-	__CPROVER_assume(in_line < ((size_t)1 << 32) && in_col >= 1 && in_col < ((size_t)1 << 32));
+	__CPROVER_assume(in_line < 65536 && in_col >= 1 && in_col < 65536);
 	s = lit_setup(in_c0, in_c1, in_m, in_splices, in_line, in_col, in_saw, in_pfx);
 	__CPROVER_assume(gs_canonical());
 	/* a literal that C11 6.4.5 defines must not be diagnosed; anything else must be (first POST clause) */
